@@ -155,7 +155,89 @@ def decideSeq (clause : String) (exact : Bool) (conf : Option Nat) (calls : List
 def plainReplies (hl : List (Option Nat × Option Nat)) : List (Option Nat × Reply) :=
   hl.map fun c => (c.1, plainPeer c.2)
 
+/-! ### audit aC09 kinds -/
+
+/-- The call's own status token: `ok` (code 0, empty message) or `e<code>` (that code, "own"). -/
+def own? (s : String) : Option (Nat × Bytes) :=
+  if s = "ok" then some (0, [])
+  else match s.toList with
+    | 'e' :: r => (String.ofList r).toNat?.map fun c => (c, "own".toUTF8.toList)
+    | _ => none
+
+def renderSeen : Option (Nat × Bytes × Nat) → String
+  | some (code, text, t) => s!"status {code} {hex text} {t}"
+  | none => "pending"
+
+/-- connections separated by `/`, each `(<header> <latency|never>)+` -/
+def conns? (toks : List String) : Option (List (List (Caller × Option Nat))) :=
+  let groups := toks.foldr (fun t acc =>
+    if t = "/" then [] :: acc
+    else match acc with
+      | [] => [[t]]
+      | g :: r => (t :: g) :: r) [[]]
+  groups.mapM calls?
+
+def cxModes : List String := ["cwc", "lazy", "new", "conn"]
+def cxShapes : List String := ["u", "cs", "ss", "bi"]
+
+def handleAudit (case obs : List String) : Option (String × String) :=
+  match case with
+  | ["cx", mode, shape, _knobs, peer, own, c, e, l] =>
+    -- a real Channel built by another public constructor / used through another RPC shape / with
+    -- other client knobs, the peer ending the call with a status of its own: all of it invisible
+    match own? own, caller? c, optNat? e, lat? l with
+    | some own, some c, some e, some l =>
+      if cxModes.contains mode && cxShapes.contains shape && (peer = "silent" || peer = "routes") then
+        let m := match c.modelHeader false with
+          | some h => renderSeen (seen own (clientCall h e (plainPeer l)))
+          | none => "panic"
+        let ok := c.outOfRange || (c.specDeadlines false).any (fun h =>
+          renderSeen (Spec.Timeout.report own (Spec.Timeout.expected [h, e] l)) == obsStr obs)
+        some (m, verdict [("client-variant-cuts-off-at-shorter-deadline-else-own-result", ok)])
+      else some bad
+    | _, _, _, _ => some bad
+  | "sx" :: _entry :: _knobs :: own :: s :: rest =>
+    -- ONE transport::Server, several connections (accept order = case order), requests on each
+    match own? own, optNat? s, conns? rest with
+    | some own, some s, some conns =>
+      let hs := conns.mapM (fun reqs => reqs.mapM (fun q => (q.1.modelHeader true).map (fun h => (h, q.2))))
+      let m := match hs with
+        | some hl => String.intercalate " | "
+            (((serverConns ⟨s⟩ hl).flatten).map (fun d => renderSeen (seen own d)))
+        | none => "panic"
+      let flat := conns.flatten
+      let ss := segs obs
+      let ok := !flat.isEmpty && ss.length == flat.length &&
+        (flat.zip ss).all (fun co =>
+          co.1.1.outOfRange ||
+          (co.1.1.specDeadlines true).any (fun h =>
+            (Spec.Timeout.expectedConns s [[(h, co.1.2)]]).flatten.map
+              (fun e => renderSeen (Spec.Timeout.report own e)) == [obsStr co.2]))
+      some (m, verdict [("requests-on-every-connection-meet-the-server-timeout", ok)])
+    | _, _, _ => some bad
+  | ["runw", c, s, l, p] =>
+    -- the middleware's future polled once by a task that then gives it away; the new owner polls from `p`
+    match caller? c, optNat? s, lat? l, nat? p with
+    | some c, some s, some l, some p =>
+      some (decideL "deadline-fires-after-task-handover" c false obs
+        (fun h => renderDone true (handoverBy true (effective h s) l p))
+        (fun h => Spec.Timeout.lateExpected [h, s] l p))
+    | _, _, _, _ => some bad
+  | ["cliw", peer, c, e, l, p] =>
+    match caller? c, optNat? e, lat? l, nat? p with
+    | some c, some e, some l, some p =>
+      if peer = "silent" || peer = "routes" then
+        some (decideL "client-deadline-fires-after-task-handover" c false obs
+          (fun h => renderDone true (clientCallLate h e (plainPeer l) p))
+          (fun h => Spec.Timeout.lateExpected [h, e] l p))
+      else some bad
+    | _, _, _, _ => some bad
+  | _ => none
+
 def handle (case obs : List String) : String × String :=
+  match handleAudit case obs with
+  | some r => r
+  | none =>
   match case with
   | "mw" :: s :: rest =>
     -- ONE `GrpcTimeout` value (hook, under RecoverError) called once per pair, one after the other
